@@ -212,10 +212,12 @@ protected:
     }
 
     void build_queue(awaiter *stop) {
-        assert("Can't build queue if there are items in it" && _queue == nullptr);
         //atomically swap top of _requests with doorman
         //we use acquire order - to see changes on _next
         awaiter *req = _requests.exchange(doorman(), std::memory_order_acquire);
+        //_queue can be inspected only after the exchange: a requester which found the mutex
+        //unlocked (see subscribe) is ordered after the previous owners just by this operation
+        assert("Can't build queue if there are items in it" && _queue == nullptr);
         //if req is defined and until stop is reached
         while (req  && req != stop) {
             //pick top item, remove it and push it to _queue
